@@ -1,13 +1,23 @@
 """C09 - A transform evaluates its current parameters and grid, never a stale snapshot.
 
 Model-based (stateful) check.  One rule-based machine drives a real deepali transform (the
-*primary* P) - and optionally one transform derived from it (the *secondary* S: shallow copy,
-`grid(g)` / `condition(...)` copy, inverse, linked inverse) - through a generated history of
-replacing, in-place, re-gridding, re-conditioning, resetting, updating and observing operations.
+*primary* P) - and optionally a transform derived from it (the *secondary* S: shallow copy,
+`grid(g)` / `condition(...)` / `unlink()` copy, inverse, linked inverse, another transform linked to P
+by `link()` / `link_()`) and a transform derived from S (the *tertiary* T: link to a linked transform,
+copy / inverse / unlinked copy of a linked transform) - through a generated history of replacing,
+in-place, re-gridding, re-conditioning, resetting, updating and observing operations.
 Next to the real objects it keeps a plain-python MODEL of what each transform *holds*:
 
-    (class, constructor options, grid descriptor, parameter VALUE (own clone), conditioning
-     arguments, invert flag, state of the cached buffers)
+    (class, constructor options, grid descriptor, parameter VALUE (own clone, with the identity of
+     the tensor object: `Cell`), the parameter container entry shared by shallow copies of a
+     Parameter-held transform (`Slot`), the transform it is linked to and the tensor object its
+     buffer `p` refers to, conditioning arguments, invert flag, state of the cached buffers)
+
+A LINKED transform "directly copies the parameters from the linked transformation" (link_): at every
+update()/call it must use what the partner's data() returns then - the partner's CURRENT tensor, also
+after the partner replaced it (data_, setters, fit, unlink_ + data_) - not the tensor that was current
+when the link was made.  Scenario rules (link -> optional use -> replacement -> use of the linked
+transform; the same with a chain / copy of the linked transform) make these histories frequent.
 
 ORACLE (fresh-twin differential): at every compared observation a twin is built through the
 constructor only from the model (`cls(make_grid(model.grid), params=model.value.clone(), **opts)`),
@@ -42,42 +52,66 @@ from vlib.stateful import VMachine, make_machine
 
 PROPERTY = "C09"
 MANIFEST = {
-    "text": "Model-based state-machine search (Hypothesis RuleBasedStateMachine, five machine families) over histories of "
-            "data_, in-place edits of parameters or of the tensor a parameter callable closes over, grid_ (dense re-gridding "
-            "to arbitrary grids incl. align_corners-only changes, B-spline subdivision), condition_, reset_parameters, update, "
-            "call, disp/tensor, clear_buffers, fit, shallow copies, grid(g)/condition(...) copies (also through "
-            "SpatialTransformer), inverse, link and unlink for displacement/velocity fields (stride, resize, steps, scale), "
-            "FFD/SVFFD (stride, transpose), linear and non-rigid transforms with callable parameters, linked inverse pairs and "
-            "sequential composites.  After each step the transform under test must agree with a twin built freshly through "
-            "the constructor from the modelled parameters/grid/conditioning; right after replacing/resetting operations also "
-            "tensor()/disp() without a call; re-gridding is compared with an independent float64 interpolation model and "
-            "spline subdivision at coincident samples.  Exploration, not proof: histories of <= 20 (quick) / 30 (thorough) "
-            "steps on small grids.",
-    "note": "Trusted: the python model of what a transform holds (value cells, aliasing of shallow copies as documented "
-            "in SpatialTransform.__copy__, link semantics as documented in ParametricTransform.link_/inverse), "
-            "vlib.ref.GridModel and vlib.ref.interp (float64 numpy, self-tested on a world-affine field), deepali "
-            "constructors and forward evaluation of a fresh object (checked by C06/C11/C14).  Semantics that the F9 repair "
-            "(shared _parameters of shallow copies, C07) would change and batches hit by F21 (FlowFields.sample, C05/C10) "
-            "are not generated while those findings are open (probed at run time).  K5 is routed around only while listed.",
+    "text": "Model-based state-machine search (Hypothesis RuleBasedStateMachine, five machine families, plus a list-of-operations "
+            "facet for GenericSpatialTransform) over histories of data_ (same / other batch size), the public setters offset_ / "
+            "angles_ / scales_ / matrix_, in-place edits of parameters or of the tensor a parameter callable (function or "
+            "torch.nn.Module) closes over, grid_ (dense re-gridding to arbitrary grids incl. align_corners-only changes, B-spline "
+            "subdivision), condition_, reset_parameters, update, call, disp/tensor, clear_buffers, fit, unlink_ + data_, "
+            "construction without parameters (params=None) with later assignment, shallow copies, grid(g)/condition(...)/unlink() "
+            "copies (also through SpatialTransformer), inverse(link, update_buffers), link()/link_() of another transform of "
+            "the same type (own tensor / Parameter / callable / no parameters, buffers already computed or not, other grid of "
+            "the same size), and of transforms derived from a derived transform (link to a linked transform, copy / inverse / "
+            "unlinked copy of a linked transform) for displacement/velocity fields (stride, resize, steps, scale), FFD/SVFFD "
+            "(stride, transpose), linear transforms (Translation, EulerRotation, AnisotropicScaling, HomogeneousTransform) held "
+            "as plain tensor, Parameter or callable, and sequential composites of these incl. composites containing a linked "
+            "member.  After each step the transform under test - primary, derived (S) and derived-from-derived (T) - must agree "
+            "with a twin built freshly through the constructor from the modelled parameters/grid/conditioning: a LINKED "
+            "transform must use what its partner's data() returns at that moment (the partner's current tensor, also after it "
+            "was replaced), a shallow copy of a Parameter-held transform the Parameter in the shared container; right after "
+            "replacing/resetting operations also tensor()/disp() without a call; re-gridding is compared with an independent "
+            "float64 interpolation model and spline subdivision at coincident samples.  GenericSpatialTransform: the members "
+            "hold the prediction assigned by the last update()/call, its linked inverse uses exactly those, its unlinked "
+            "inverse its own prediction.  Exploration, not proof: histories of <= 20 (quick) / 30 (thorough) rule applications "
+            "(scenario rules emit up to 6 operations) on small grids.",
+    "note": "Trusted: the python model of what a transform holds (value cells with object identity, aliasing of shallow copies "
+            "as documented in SpatialTransform.__copy__: shared container of Parameters, own container of buffers; link "
+            "semantics as documented in ParametricTransform.link_/inverse/has_parameters), vlib.ref.GridModel and "
+            "vlib.ref.interp (float64 numpy, self-tested on a world-affine field), deepali constructors and forward evaluation "
+            "of a fresh object (checked by C06/C11/C14).  K5 is routed around only while listed.",
     "technique": "property-based testing (Hypothesis, stateful/model-based) with a fresh-twin differential oracle and a "
                  "float64 reference model for re-gridding",
 }
 ASSUMPTIONS = [
-    "grids: D in {2,3}, sizes 3..9 (3-D: 3..6), spacing in [0.2, 5], |center| <= 50, rotated/anisotropic included; "
-    "parameters are float32, amplitudes <= 0.3 cube units",
+    "grids: D in {2,3}, sizes 3..9 (3-D: 3..6; up to 24 after refinement), spacing in [0.2, 5] (>= 0.02 after repeated "
+    "re-gridding to grids inside the old domain), |center| <= 50, rotated/anisotropic included; "
+    "parameters are float32, amplitudes <= 0.3 cube units (scaling factors in [0.4, 1.6])",
     "after an in-place edit tensor()/disp() are only compared after update(), a call, or a buffer-clearing operation "
-    "(SpatialTransform.update docstring)",
+    "(SpatialTransform.update docstring); the same holds for a linked transform / a copy sharing a Parameter after its partner "
+    "replaced the parameters (its CALL is always compared)",
+    "a transform linked to a transform that is itself linked (chain) reads the intermediate transform's buffered parameters; "
+    "its value is only compared while the intermediate transform is up to date with the root (after its update()/call), since "
+    "link_ documents a copy of the partner's (buffered) parameters and following the chain to the root would be an equally "
+    "defensible reading",
+    "a transform linked to a partner with callable parameters uses the partner's last prediction (link_/inverse docstrings: "
+    "'will not recompute', 'directly access the parameters')",
     "dense re-gridding is compared at new samples lying >= 1e-3 samples inside the old sample hull (outside, the "
     "extrapolation rule is not part of the property); the verified parameters are then adopted by the model",
     "B-spline subdivision: the model adopts the subdivided coefficients after the coincident-sample comparison",
-    "reset_parameters() of a linear transform with callable parameters is modelled as zeroing the buffered prediction "
+    "reset_parameters() with callable parameters is modelled as writing the identity parameters into the buffered prediction "
     "until the next update (for non-rigid models the cleared buffers make tensor() predict again); HomogeneousTransform is "
-    "not reset and not inverted (zero matrix after reset: F5 of C06)",
+    "not inverted (matrix inversion / singular matrices are not part of this property)",
+    "derived transforms are dropped from observation when the primary changes its grid, and - for shallow copies sharing the "
+    "Parameter container - when the primary is unlinked in place; a Parameter is not assigned to a transform that held a plain "
+    "tensor / callable / nothing while an UNLINKED shallow copy of it is observed (which object `params` of such a copy "
+    "resolves to afterwards is a torch.nn.Module lookup-order detail, not documented behaviour); LINKED transforms must keep "
+    "following their partner across such a change (finding N09-7)",
+    "data(arg) of linked / Module-held transforms is left to C07 (finding N07-2); `.inv` is generated as "
+    "inverse(link=True, update_buffers=True), which is what it is implemented as, the property itself is not used",
+    "GenericSpatialTransform: the constructor passes scaling_and_squaring_steps on to an SVF only (SVFFD keeps the default "
+    "number of steps) - modelled as implemented, not asserted; flip_grid_coords only without a rotation member",
     "grids whose reshape to the strided parameter grid trips the Grid._resize assertion (F19, property C03) are not used "
-    "with stride != 1 (probed per grid)",
-    "while FlowFields.sample(grid) truncates batches (F21, properties C05/C10): no re-gridding/fit of dense models with N > 1",
-    "while shallow copies share the _parameters container (F9, property C07): no link/grid()/data_ on copies of "
-    "Parameter-held transforms, and such copies are dropped when the original replaces its parameters",
+    "with stride != 1 and batches are not re-gridded while FlowFields.sample(grid) truncates them (F21) - both probed at run "
+    "time, inactive on a tree with those fixes",
 ]
 
 K = 64.0
@@ -118,6 +152,12 @@ def dense_data_desc(g: dict, stride) -> dict:
     d["size"] = n2
     d["spacing"] = sp
     return d
+
+
+def same_desc(a: dict, b: dict) -> bool:
+    """Do two grid descriptors describe the same grid (the 'kind' entry is only a label of the generator)?"""
+    strip = lambda g: {k: v for k, v in g.items() if k != "kind"}
+    return strip(a) == strip(b)
 
 
 def cube_name(g: dict) -> str:
@@ -232,8 +272,9 @@ def vec_tensor(v, N, shape) -> torch.Tensor:
 class Cell:
     """A tensor object as the model sees it: `value` is the model's own clone."""
 
-    def __init__(self, value: torch.Tensor):
+    def __init__(self, value: torch.Tensor, valid: bool = True):
         self.value = value
+        self.valid = valid  # False: placeholder without batch dimension (link_ to a transform without parameters)
 
 
 class Slot:
@@ -257,7 +298,24 @@ class Net:
         return self.base + a * self.w1 + k * self.w2
 
 
-LINEAR = ("Translation", "EulerRotation", "HomogeneousTransform")
+class NetModule(torch.nn.Module):
+    """Callable parameters given as a torch.nn.Module (registered as child module 'params' of the transform)."""
+
+    def __init__(self, base: torch.Tensor, w1: torch.Tensor, w2: torch.Tensor):
+        super().__init__()
+        self.base, self.w1, self.w2 = base, w1, w2
+        self.calls = 0
+
+    def forward(self, *args, **kwargs):
+        self.calls += 1
+        a = sum(float(x) for x in args)
+        k = float(kwargs.get("k", 0.0))
+        return self.base + a * self.w1 + k * self.w2
+
+
+LINEAR = ("Translation", "EulerRotation", "HomogeneousTransform", "AnisotropicScaling")
+LINEAR_CALLABLE = ("Translation", "EulerRotation", "HomogeneousTransform")
+SETTERS = {"Translation": "offset_", "EulerRotation": "angles_", "HomogeneousTransform": "matrix_", "AnisotropicScaling": "scales_"}
 CLS = {"ddf": "DisplacementFieldTransform", "svf": "StationaryVelocityFieldTransform",
        "ffd": "FreeFormDeformation", "svffd": "StationaryVelocityFreeFormDeformation"}
 
@@ -281,9 +339,13 @@ class Unit:
         self.invert = False
         self.sign = 1.0
         self.buf = "na"
-        self.pval = None
+        self.pref = None  # Cell the buffer `p` refers to (callable-held and linked transforms)
         self.real = None
         self.regrid = False
+
+    @property
+    def pval(self):
+        return self.pref.value
 
     # -- shapes ---------------------------------------------------------------------------
     @property
@@ -314,6 +376,8 @@ class Unit:
             return (1 if D == 2 else 3,)
         if self.cls == "HomogeneousTransform":
             return (D, D + 1)
+        if self.cls == "AnisotropicScaling":
+            return (D,)
         raise ValueError(self.cls)
 
     def content(self, fill: dict, N: int, grid=None) -> torch.Tensor:
@@ -326,7 +390,17 @@ class Unit:
         v = vec_tensor(fill["v"], N, shp)
         if self.cls == "HomogeneousTransform":
             v = v + torch.eye(self.D, self.D + 1).unsqueeze(0)
+        if self.cls == "AnisotropicScaling":
+            v = v + 1.0  # scaling factors (|v| <= 2 AMP: factors stay in [0.4, 1.6])
         return v
+
+    def reset_tensor(self, like: torch.Tensor) -> torch.Tensor:
+        """Parameters of the identity transform, which reset_parameters() writes (in place)."""
+        if self.cls == "AnisotropicScaling":
+            return torch.ones_like(like)
+        if self.cls == "HomogeneousTransform":
+            return torch.eye(self.D, self.D + 1).expand_as(like).clone()
+        return torch.zeros_like(like)
 
     # -- values ---------------------------------------------------------------------------
     def net_eval(self) -> torch.Tensor:
@@ -334,29 +408,61 @@ class Unit:
         k = float(self.cond[1].get("k", 0.0))
         return self.net_model.value + a * self.net.w1 + k * self.net.w2
 
+    def data_cell(self) -> Cell:
+        """The tensor object `data()` of this transform returns: its parameter tensor, or - with callable parameters
+        or a link - the buffered tensor `p` (documented: "Get (buffered) transformation parameters")."""
+        if self.link is None and self.holder != "callable":
+            return self.slot.cell
+        return self.pref
+
     def current(self) -> torch.Tensor:
-        """Parameter value the transform holds now (what a call must use)."""
+        """Parameter value the transform holds now (what a call must use).
+
+        A linked transform "directly copies the parameters from the linked transformation" (link_), i.e. what the
+        partner's data() returns at that moment: the partner's CURRENT parameter tensor, or the partner's buffered
+        prediction when the partner has callable parameters / is itself linked."""
         if self.link is not None:
-            p = self.link
-            return p.pval if p.holder == "callable" else p.current()
+            return self.link.data_cell().value
         if self.holder == "callable":
             return self.net_eval()
         return self.slot.cell.value
 
+    def settled(self) -> bool:
+        """Is the value a call must use defined by the documentation?  Not for a chain of links whose intermediate
+        transform has not been updated since the root changed: link_ documents a copy of the partner's (buffered)
+        parameters, following the chain to the root would be an equally defensible reading."""
+        q = self.link
+        if q is None or q.link is None:
+            return True
+        return q.pref is q.link.data_cell() and q.settled()
+
+    def has_parameters(self) -> bool:
+        """Documented in ParametricTransform.has_parameters: a linked transform follows the link."""
+        return self.link.has_parameters() if self.link is not None else self.holder == "parameter"
+
+    def batch(self) -> int:
+        return int(self.current().shape[0])
+
     def observable(self):
         """Value that tensor()/disp() must reflect without a call; None = not defined by the contract."""
+        if not self.settled():
+            return None
         if self.buf in ("na", "none", "fresh"):
             return self.current()
         if self.buf == "zero":
-            return torch.zeros_like(self.pval)
+            return self.reset_tensor(self.pval)
         return None
 
-    def refreshed(self):
-        """Model effect of update() / a call."""
-        if self.holder == "callable" and self.link is None:
-            self.pval = self.net_eval().clone()
+    def refreshed(self) -> bool:
+        """Model effect of update() / a call.  Returns whether data() now returns another tensor object."""
+        old = self.pref
+        if self.link is not None:
+            self.pref = self.link.data_cell()
+        elif self.holder == "callable":
+            self.pref = Cell(self.net_eval().clone())
         if self.buf != "na":
             self.buf = "fresh"
+        return self.pref is not old
 
     # -- construction ---------------------------------------------------------------------
     def ctor_opts(self) -> dict:
@@ -392,8 +498,7 @@ class Unit:
         return t
 
     def twin(self, value: torch.Tensor):
-        h = "parameter" if (self.holder == "parameter" and self.link is None) else "buffer"
-        return self.build(value, holder=h)
+        return self.build(value, holder="parameter" if self.has_parameters() else "buffer")
 
     def derive(self) -> "Unit":
         """Model of a shallow copy (documented in SpatialTransform.__copy__)."""
@@ -402,7 +507,7 @@ class Unit:
         u.opts = dict(self.opts)
         u.cond = (list(self.cond[0]), dict(self.cond[1]))
         u.real = None
-        if self.holder == "buffer" and self.link is None:
+        if self.holder == "buffer" and self.link is None and self.slot is not None:
             u.slot = Slot(self.slot.cell)  # own container, same tensor object
         return u
 
@@ -446,7 +551,7 @@ def points(D):
 
 
 @st.composite
-def unit_specs(draw, kind, D, in_composite=False):
+def unit_specs(draw, kind, D, in_composite=False, classes=LINEAR):
     spec = {"kind": kind}
     if kind in ("ddf", "svf"):
         spec["opts"] = {"stride": draw(st.sampled_from([1, 1, 2, 1.5, [2, 1]])), "resize": draw(st.booleans())}
@@ -456,7 +561,7 @@ def unit_specs(draw, kind, D, in_composite=False):
         spec["opts"]["scale"] = draw(st.sampled_from([None, 1.0, 0.5, -1.0]))
         spec["opts"]["steps"] = draw(st.integers(0, 3))
     if kind == "lin":
-        spec["cls"] = draw(st.sampled_from(LINEAR))
+        spec["cls"] = draw(st.sampled_from(classes))
         spec["opts"] = {}
         if spec["cls"] == "EulerRotation" and D == 3:
             spec["opts"]["order"] = draw(st.sampled_from([None, "ZXZ", "XYZ"]))
@@ -467,12 +572,13 @@ def unit_specs(draw, kind, D, in_composite=False):
 
 
 @st.composite
-def callable_specs(draw, D, kind="lin"):
-    spec = draw(unit_specs(kind, D))
+def callable_specs(draw, D, kind="lin", classes=LINEAR_CALLABLE):
+    spec = draw(unit_specs(kind, D, classes=classes))
     spec["holder"] = "callable"
     q = gen.qfloat
     spec["net"] = {"w1": draw(st.lists(q(-AMP, AMP, 0.01), min_size=2, max_size=3)),
-                   "w2": draw(st.lists(q(-AMP, AMP, 0.01), min_size=2, max_size=3))}
+                   "w2": draw(st.lists(q(-AMP, AMP, 0.01), min_size=2, max_size=3)),
+                   "module": draw(st.sampled_from([False, False, True]))}  # plain callable or torch.nn.Module
     return spec
 
 
@@ -496,12 +602,23 @@ def inits(draw, family):
         init["grid"] = draw(c09_grids(D, ac=True if kind == "svffd" else None, max3=5, max2=8))
         init["units"] = [draw(callable_specs(D)) if kind == "call" else draw(unit_specs(kind, D))]
         if kind != "call":
-            init["units"][0]["holder"] = draw(st.sampled_from(["buffer", "buffer", "buffer", "parameter"]))
+            u0 = init["units"][0]
+            u0["holder"] = draw(st.sampled_from(["buffer", "parameter"]))
+            if u0.get("cls") != "HomogeneousTransform":
+                # constructed without parameters (params=None), optionally linked, parameters assigned afterwards
+                u0["late"] = draw(st.sampled_from(["no", "no", "no", "data", "link"]))
     elif family == "composite":
-        kinds = draw(st.lists(st.sampled_from(["lin", "call", "ddf", "svf", "ffd", "svffd"]), min_size=2, max_size=3))
+        pool = draw(st.sampled_from([["lin", "call", "ddf", "svf", "ffd", "svffd"], ["lin", "call", "svf", "svffd"]]))
+        kinds = draw(st.lists(st.sampled_from(pool), min_size=2, max_size=3))
         init["grid"] = draw(c09_grids(D, ac=True if any(k in ("ffd", "svffd") for k in kinds) else None, max3=5, max2=7))
-        init["units"] = [draw(callable_specs(D)) if k == "call" else draw(unit_specs(k, D)) for k in kinds]
+        lin = LINEAR if len(pool) == 6 else tuple(c for c in LINEAR if c != "HomogeneousTransform")
+        init["units"] = [draw(callable_specs(D, classes=LINEAR_CALLABLE if len(pool) == 6 else LINEAR_CALLABLE[:2])) if k == "call"
+                         else draw(unit_specs(k, D, classes=lin)) for k in kinds]
         init["composite"] = True
+        inv = [i for i, (k, u) in enumerate(zip(kinds, init["units"])) if k in ("lin", "call", "svf", "svffd")
+               and u.get("cls") != "HomogeneousTransform"]
+        if inv and draw(st.integers(0, 2)) == 0:
+            init["mirror"] = draw(st.sampled_from(inv))  # last member: inverse of member i, linked to it
     else:
         raise ValueError(family)
     return init
@@ -510,30 +627,18 @@ def inits(draw, family):
 # =======================================================================================
 # the machine
 
-REPLACING = ("data_", "reset", "grid_", "condition_", "fit")
-_F9 = {}
-
-
-def f9_open() -> bool:
-    """Do shallow copies share the `_parameters` container (finding F9, property C07)?"""
-    if "v" not in _F9:
-        S = _sp()
-        from deepali.core import Grid
-
-        t = S.Translation(Grid(size=(3, 3)))
-        _F9["v"] = _copy.copy(t)._parameters is t._parameters
-    return _F9["v"]
+_PROBES = {}
 
 
 def f21_open() -> bool:
     """Does FlowFields.sample(grid) truncate a batch to one item (finding F21, properties C05/C10)?"""
-    if "f21" not in _F9:
+    if "f21" not in _PROBES:
         from deepali.core import Grid
         from deepali.data import FlowFields
 
         f = FlowFields(torch.zeros(2, 2, 3, 3), grid=Grid(size=(3, 3)))
-        _F9["f21"] = f.sample(Grid(size=(4, 4))).tensor().shape[0] != 2
-    return _F9["f21"]
+        _PROBES["f21"] = f.sample(Grid(size=(4, 4))).tensor().shape[0] != 2
+    return _PROBES["f21"]
 
 
 def f19_hits(g: dict, stride) -> bool:
@@ -572,7 +677,8 @@ class C09Machine(VMachine):
     def __init__(self):
         super().__init__()
         self.P = None
-        self.S = None
+        self.S = None  # derived from P
+        self.T = None  # derived from S
         self.changes = []
         self.nt = False
         self.maxratio = 0.0
@@ -600,8 +706,9 @@ class C09Machine(VMachine):
 
     def all_units(self):
         us = list(self.P.units)
-        if self.S is not None:
-            us += self.S.units
+        for sub in (self.S, self.T):
+            if sub is not None:
+                us += sub.units
         return us
 
     def route(self, fid: str) -> bool:
@@ -636,6 +743,7 @@ class C09Machine(VMachine):
         self.D = D
         self.x = torch.tensor([init["x"]], dtype=torch.float32)
         units = []
+        early = None
         for spec in init["units"]:
             u = Unit(spec, grid)
             if u.dense and f19_hits(grid, u.opts.get("stride", 1)):
@@ -649,16 +757,30 @@ class C09Machine(VMachine):
                           .reshape((1, D) + (1,) * D) for w in ("w1", "w2")]
                 else:
                     ws = [vec_tensor(spec["net"][w], u.N, shp[1:]) for w in ("w1", "w2")]
-                u.net = Net(base, ws[0], ws[1])
+                u.net = (NetModule if spec["net"].get("module") else Net)(base, ws[0], ws[1])
                 u.net_model = Cell(base.clone())
-                u.pval = torch.zeros((1,) + shp[1:])  # constructor: groups=1, zero-initialised buffer
+                u.pref = Cell(u.reset_tensor(torch.zeros((1,) + shp[1:])))  # constructor: groups=1, buffer reset to identity
                 u.buf = "none" if u.nonrigid else "stale"  # nothing predicted yet (tensor() of a non-rigid model updates)
                 u.real = u.build()
+                if spec["net"].get("module"):
+                    self.labels.add("callable=nn.Module")
             else:
                 v = u.content(spec["fill"], u.N)
                 u.slot = Slot(Cell(v.clone()))
                 u.buf = "none" if u.nonrigid else "na"
-                u.real = u.build(v)
+                late = spec.get("late", "no")
+                if late == "no" or init.get("composite"):
+                    u.real = u.build(v)
+                else:
+                    # documented: params=None -> "parameters must be set using data() or data_() before this
+                    # transformation is evaluated"; a transform linked to it meanwhile follows it afterwards
+                    u.real = getattr(S, u.cls)(make_grid(grid), params=None, **u.ctor_opts())
+                    if late == "link" and u.kind in ("lin", "svf", "svffd"):
+                        early = u.real.inverse(link=True, update_buffers=False)
+                    else:
+                        early = None
+                    u.real.data_(torch.nn.Parameter(v.clone()) if u.holder == "parameter" else v.clone())
+                    self.labels.add("late=" + late)
             units.append(u)
             self.labels.add("kind=" + u.kind + ("/callable" if u.holder == "callable" else ""))
             self.labels.add("holder=" + u.holder)
@@ -672,30 +794,59 @@ class C09Machine(VMachine):
         self.labels.add(f"D={D}")
         self.labels.add(f"ac={grid.get('ac', True)}")
         self.labels.add("grid=" + grid.get("kind", "?"))
+        self.S = None
+        self.T = None
         if init.get("composite"):
+            if init.get("mirror") is not None:
+                # a composite containing a linked member: inverse of member i, linked to it, appended after it
+                u = units[int(init["mirror"]) % len(units)]
+                m = self.inverse_unit(u, True, False)
+                m.real = u.real.inverse(link=True, update_buffers=False)
+                units.append(m)
+                self.labels.add("composite=linked-member")
             real = S.SequentialTransform(make_grid(grid), *[u.real for u in units])
             self.P = Subject(units, grid, True, real)
         else:
             self.P = Subject(units, grid, False, units[0].real)
-        self.S = None
+            if early is not None:
+                m = self.inverse_unit(units[0], True, False)
+                m.pref = Cell(torch.zeros(units[0].data_shape()), valid=False)  # link_ to a transform without parameters
+                m.buf = "none" if m.nonrigid else "stale"
+                m.real = early
+                self.make_sub("S", [m], early, "inverse/link")
 
     # ---- observations -------------------------------------------------------------------
+    @staticmethod
+    def usable(u: Unit) -> bool:
+        """False while the tensor a linked transform would read is the placeholder (without batch dimension) that link_
+        registers for a partner without parameters: the intermediate transform has to be updated first."""
+        return (u.pref is None or u.pref.valid) and (u.link is None or u.link.data_cell().valid)
+
     def obs_call(self, sub: Subject, x, tag):
+        if not all(u.link is None or u.link.data_cell().valid for u in sub.units):
+            self.labels.add("placeholder-not-evaluated")
+            return
         y = sub.real(x)
         for u in sub.units:
             self.refresh_unit(u)
+        if not all(u.settled() for u in sub.units):
+            self.labels.add("chain=unsettled-not-compared")
+            return
         tw = sub.twin([u.current() for u in sub.units])
         e = tw(x)
         self.compared()
+        if any(u.link is not None for u in sub.units):
+            self.labels.add("linked-call-compared")
         self.close(y, e, f"{tag}call_mismatch:after={self.last_change(sub)}", f"{self.describe(sub)}(x) vs fresh twin")
 
     def obs_fields(self, sub: Subject, tag, which=("tensor", "disp")):
         vals = [u.observable() for u in sub.units]
         if any(v is None for v in vals):
-            # not defined by the contract: exercise the accessors only
-            for w in which:
-                getattr(sub.real, w)()
-            self.settle(sub)
+            # not defined by the contract: exercise the accessors only (not while buffer p is a placeholder)
+            if all(self.usable(u) for u in sub.units):
+                for w in which:
+                    getattr(sub.real, w)()
+                self.settle(sub)
             return False
         tw = sub.twin(vals)
         for w in which:
@@ -707,12 +858,11 @@ class C09Machine(VMachine):
         return True
 
     def refresh_unit(self, u: Unit):
-        """Model effect of update()/a call on unit u, incl. transforms linked to its buffered prediction."""
-        u.refreshed()
-        if u.holder == "callable" and u.link is None:
+        """Model effect of update()/a call on unit u, incl. transforms linked to its buffered parameters `p`."""
+        if u.refreshed():
             for v in self.all_units():
                 if v.link is u and v.buf in ("fresh", "zero"):
-                    v.buf = "stale"  # holds the previous prediction until its own update()
+                    v.buf = "stale"  # holds the previous tensor until its own update()
 
     def settle(self, sub):
         # tensor() of a non-rigid transform without buffers runs update()
@@ -721,6 +871,8 @@ class C09Machine(VMachine):
                 self.refresh_unit(u)
 
     def last_change(self, sub):
+        if any(u.link is not None and u.link.link is not None for u in sub.units):
+            return getattr(sub, "last", "init") + ":chain"
         if any(u.holder == "callable" and u.link is None and not u.nonrigid for u in sub.units):
             flavor = "linear-callable"
         elif any(u.holder == "callable" and u.link is None for u in sub.units):
@@ -734,36 +886,38 @@ class C09Machine(VMachine):
 
     # ---- aliasing effects ---------------------------------------------------------------
     def touched_cell(self, cell, actor):
+        """The tensor object `cell` was edited in place: cached fields of every other transform that reads it are
+        only defined again after its update()."""
         for u in self.all_units():
             if u is actor:
                 continue
-            if (u.link is None and u.slot is not None and u.slot.cell is cell) or \
-               (u.link is not None and u.link.slot is not None and u.link.slot.cell is cell):
-                if u.buf in ("fresh", "zero"):
-                    u.buf = "stale"
+            cells = [u.pref, u.slot.cell if (u.link is None and u.slot is not None) else None,
+                     u.link.data_cell() if u.link is not None else None]
+            if any(c is cell for c in cells) and u.buf in ("fresh", "zero"):
+                u.buf = "stale"
 
     def stale_links(self, actor):
-        if self.S is None:
-            return
-        for u in self.S.units:
-            if u.link is actor and u.buf in ("fresh", "zero", "none"):
-                u.buf = "stale" if u.buf != "none" else "none"
+        for u in self.all_units():
+            if u.link is actor and u.buf in ("fresh", "zero"):
+                u.buf = "stale"
 
     def drop_secondary(self):
         self.S = None
+        self.T = None
 
     def replaced(self, actor: Unit):
-        """actor replaced its parameter tensor (new Cell already set)."""
-        if self.S is None:
-            return
-        for u in self.S.units:
-            if u.link is actor:
+        """actor replaced its parameter tensor (new Cell already set in its Slot).
+
+        Transforms linked to actor read the new tensor at their next update()/call (link_: "directly copies the
+        parameters from the linked transformation"); shallow copies of a Parameter-held actor share its parameter
+        container (SpatialTransform.__copy__) and therefore hold the new Parameter, too - cached fields of either are
+        only defined again after their update()."""
+        for u in self.all_units():
+            if u is actor:
+                continue
+            if u.link is actor or (u.link is None and u.slot is not None and u.slot is actor.slot):
                 if u.buf in ("fresh", "zero"):
                     u.buf = "stale"
-            elif u.slot is not None and u.slot is actor.slot:
-                # shared _parameters container: semantics contested by F9 -> not observed any more
-                self.drop_secondary()
-                return
 
     # ---- interpreter --------------------------------------------------------------------
     def apply(self, op):
@@ -780,9 +934,16 @@ class C09Machine(VMachine):
         self.changed(name)
         self.obs_fields(self.P, "")
 
+    def owner(self, op) -> Unit:
+        """Target unit, or - for a linked member of a composite - the unit whose parameters it uses."""
+        u = self.target(op)
+        while u.link is not None:
+            u = u.link
+        return u
+
     def op_data_(self, op):
         u = self.target(op)
-        if u.holder == "callable":
+        if u.holder == "callable" or u.link is not None:
             from deepali.spatial.base import ReadOnlyParameters
 
             try:
@@ -795,15 +956,41 @@ class C09Machine(VMachine):
             N = u.N
         new = u.content(op["fill"], N)
         u.real.data_(new.clone())
-        u.slot.cell = Cell(new.clone())  # a shared container (Parameter-held copies) is handled by replaced()
+        u.slot.cell = Cell(new.clone())  # the Slot is shared with shallow copies of a Parameter-held transform
         u.N = N
         u.buf = "none" if u.nonrigid else "na"
         self.replaced(u)
         self.after_replacing("data_")
 
-    def op_edit(self, op):
+    def op_set(self, op):
+        """Replace the parameters through the public setter of a linear transform (offset_/angles_/scales_/matrix_).
+
+        The model value follows the documented parameterisation: plain tensors hold offsets / angles in radians /
+        scaling factors / the matrix itself; optimisable Parameters hold atanh(angle / pi) and atanh(log(scale)) + 1
+        (has_parameters() activation, cf. EulerRotation.angles, AnisotropicScaling.scales)."""
         u = self.target(op)
+        if u.kind != "lin" or u.holder == "callable" or u.link is not None:
+            raise Skip("setter: tensor-held linear transforms only")
+        N = int(op.get("N", u.N))
+        arg = u.content(op["fill"], N)
+        name = SETTERS[u.cls]
+        getattr(u.real, name)(arg.clone())
+        new = arg.clone()
+        if u.holder == "parameter" and u.cls == "EulerRotation":
+            new = new.div(math.pi).atanh()
+        if u.holder == "parameter" and u.cls == "AnisotropicScaling":
+            new = new.log().atanh().add(1)
+        u.slot.cell = Cell(new)
+        u.N = N
+        self.replaced(u)
+        self.labels.add("setter=" + name)
+        self.after_replacing("set")
+
+    def op_edit(self, op):
+        u = self.owner(op)
         how = op["how"]
+        if u.cls == "AnisotropicScaling" and how["kind"] != "scale":
+            how = {"kind": "scale", "c": 1.25}  # additive noise could produce a zero scaling factor (not invertible)
         if u.holder == "callable":
             real, cell = u.net.base, u.net_model
         else:
@@ -830,19 +1017,16 @@ class C09Machine(VMachine):
         self.changed("edit")
 
     def op_reset(self, op):
-        u = self.target(op)
-        if u.cls == "HomogeneousTransform":
-            raise Skip("F5")
+        u = self.owner(op)
         u.real.reset_parameters()
         if u.holder == "callable":
-            u.pval = torch.zeros_like(u.pval)
+            u.pref.value.copy_(u.reset_tensor(u.pref.value))  # the buffer object `p` is rewritten in place
             u.buf = "none" if u.nonrigid else "zero"  # non-rigid: buffers cleared, tensor() runs update() again
-            if self.S is not None:  # buffer object `p` may be shared with copies
-                for s in self.S.units:
-                    if s.buf in ("fresh", "zero"):
-                        s.buf = "stale"
+            for s in self.all_units():  # buffer object `p` may be shared with copies / linked transforms
+                if s is not u and s.buf in ("fresh", "zero"):
+                    s.buf = "stale"
         else:
-            u.slot.cell.value.zero_()
+            u.slot.cell.value.copy_(u.reset_tensor(u.slot.cell.value))
             u.buf = "none" if u.nonrigid else "na"
             self.touched_cell(u.slot.cell, u)
             self.stale_links(u)
@@ -886,7 +1070,7 @@ class C09Machine(VMachine):
         if not (gobj == want and gobj.align_corners() == want.align_corners()):
             raise Violation(tag + "grid_not_set", f"{u.cls}.grid_(g): grid() afterwards is {gobj!r} (align_corners="
                                                   f"{gobj.align_corners()}), requested {want!r} (align_corners={want.align_corners()})")
-        same = g2 == g1
+        same = same_desc(g2, g1)
         u.grid = g2
         u.slot = Slot(Cell(new))
         u.N = int(new.shape[0])
@@ -939,7 +1123,7 @@ class C09Machine(VMachine):
             gobj, want = u.real.grid(), make_grid(g2)
             if not (gobj == want and gobj.align_corners() == want.align_corners()):
                 raise Violation("grid_not_set", f"{u.cls}.grid_(g) with callable parameters: grid() is {gobj!r}, requested {want!r}")
-            if g2 != u.grid:
+            if not same_desc(g2, u.grid):
                 u.buf = "none"
             elif u.buf == "fresh":
                 u.buf = "stale"  # same grid, other prediction: like an in-place edit
@@ -1036,32 +1220,73 @@ class C09Machine(VMachine):
         self.replaced(u)
         self.after_replacing("fit")
 
-    # ---- secondary ----------------------------------------------------------------------
+    # ---- derived transforms (S from P, T from S) -------------------------------------------
     def need_unit(self):
         if self.P.composite:
             raise Skip("composite")
         return self.P.units[0]
 
-    def make_secondary(self, units, real, how, grid=None):
-        self.S = Subject(units, grid or self.P.grid, self.P.composite, real)
-        self.S.how = how
-        self.S.last = how
+    def sub(self, who: str) -> Subject:
+        s = {"P": self.P, "S": self.S, "T": self.T}[who]
+        if s is None:
+            raise Skip("no " + who)
+        return s
+
+    def make_sub(self, who, units, real, how, grid=None):
+        src = self.P if who == "S" else self.S
+        sub = Subject(units, grid or src.grid, src.composite, real)
+        sub.how = how if who == "S" else "t:" + how
+        sub.last = how
+        if not sub.composite:
+            units[0].real = real
+        if who == "S":
+            self.S, self.T = sub, None
+        else:
+            self.T = sub
         self.changed(how)
-        self.labels.add("secondary=" + how)
+        self.labels.add(("secondary=" if who == "S" else "tertiary=") + how)
+        if any(u.link is not None and u.link.link is not None for u in units):
+            self.labels.add("chain-of-links")
+        if any(u.link is not None and u.link.holder == "parameter" for u in units):
+            self.labels.add("linked-to=parameter")
+        return sub
+
+    def make_secondary(self, units, real, how, grid=None):
+        return self.make_sub("S", units, real, how, grid)
+
+    def inverse_unit(self, u: Unit, link: bool, ub: bool) -> Unit:
+        """Model of u.inverse(link, update_buffers): shallow copy, flipped direction, optionally linked to u."""
+        s = u.derive()
+        if u.kind == "lin":
+            s.invert = not u.invert
+        else:
+            s.sign = -u.sign
+        has_p = u.holder == "callable" or u.link is not None
+        if link:
+            s.link = u
+            s.slot = None
+            s.pref = u.data_cell()  # link_: buffer p = other.data(); a copied buffer p is the same tensor object
+        if u.kind == "lin":
+            s.buf = "fresh" if link else (u.buf if has_p else "na")
+        else:
+            s.buf = "none" if u.buf == "none" else (u.buf if ub else "stale")
+        return s
 
     def op_copy(self, op):
-        u = self.need_unit()
+        who = op.get("who", "S")
+        src = self.P if who == "S" else self.sub("S")
+        if src.composite:
+            raise Skip("composite")
+        u = src.units[0]
         s = u.derive()
         s.real = _copy.copy(u.real)
-        self.make_secondary([s], s.real, "copy")
-        self.obs_fields(self.S, "s_")
+        sub = self.make_sub(who, [s], s.real, "copy")
+        self.obs_fields(sub, who.lower() + "_")
 
     def op_grid_copy(self, op):
         u = self.need_unit()
         if u.holder == "callable":
             raise Skip("callable")
-        if u.holder == "parameter" and f9_open():
-            raise Skip("F9")
         g2 = self.new_grid(u, op)
         if u.dense and u.current().shape[0] > 1 and f21_open():
             raise Skip("F21")
@@ -1102,7 +1327,7 @@ class C09Machine(VMachine):
             raise Violation("s_grid_not_set", f"{u.cls}.grid(g).grid() is {gobj!r} (align_corners={gobj.align_corners()}), "
                                               f"requested {want!r} (align_corners={want.align_corners()})")
         s.grid = g2
-        s.slot = Slot(Cell(got.clone()))
+        s.slot = Slot(Cell(got.clone()))  # documented: grid(g) returns a copy with its own re-expressed parameters
         s.N = int(got.shape[0])
         s.buf = "none"
         self.obs_fields(self.S, "s_", which=("tensor",))
@@ -1158,83 +1383,268 @@ class C09Machine(VMachine):
         self.obs_call(self.P, self.x, "")
 
     def op_inverse(self, op):
+        """inverse(link, update_buffers) of P (who='S', default) or of S (who='T': chains, inverses of copies)."""
         link, ub = bool(op["link"]), bool(op["update_buffers"])
-        P = self.P
-        for u in P.units:
+        who = op.get("who", "S")
+        src = self.P if who == "S" else self.sub("S")
+        for u in src.units:
             if u.kind in ("ddf", "ffd"):
                 raise Skip("not invertible")
             if u.cls == "HomogeneousTransform":
-                raise Skip("HomogeneousTransform (F5)")
-            if link and u.holder == "parameter" and f9_open():
-                raise Skip("F9")
-            if link and u.holder == "parameter" and u.cls == "EulerRotation":
-                # whether a linked transform applies the tanh activation of Parameter-held angles is decided by C07 (N07-1)
-                raise Skip("N07-1")
-        real = P.real.inverse(link=link, update_buffers=ub)
-        units = []
-        for u in (reversed(P.units) if P.composite else P.units):
-            s = u.derive()
-            if u.kind == "lin":
-                s.invert = not u.invert
-            else:
-                s.sign = -u.sign
-            if link:
-                s.link = u
-                s.slot = None
-            if u.kind == "lin":
-                if u.holder == "callable":
-                    s.buf = "fresh" if link else u.buf
-                else:
-                    s.buf = "fresh" if link else "na"
-            else:
-                s.buf = "none" if u.buf == "none" else (u.buf if ub else "stale")
-            units.append(s)
-        self.make_secondary(units, real, "inverse/link" if link else "inverse")
-        self.obs_fields(self.S, "s_")
+                raise Skip("HomogeneousTransform (matrix inversion is not part of this property)")
+        real = src.real.inverse(link=link, update_buffers=ub)
+        units = [self.inverse_unit(u, link, ub) for u in (reversed(src.units) if src.composite else src.units)]
+        sub = self.make_sub(who, units, real, "inverse/link" if link else "inverse")
+        self.obs_fields(sub, who.lower() + "_")
 
-    def need_secondary(self):
-        if self.S is None:
-            raise Skip("no secondary")
-        return self.S
+    def op_link_other(self, op):
+        """Another transform Q of the same type (own parameters / callable / none, buffers possibly computed already)
+        is linked to the source: `Q.link(src)` (shallow copy of Q) or `Q.link_(src)` (Q itself)."""
+        S = _sp()
+        who = op.get("who", "S")
+        src = self.P if who == "S" else self.sub("S")
+        if src.composite:
+            raise Skip("composite")
+        u = src.units[0]
+        qh = op["qholder"]
+        spec = {"kind": u.kind, "cls": u.cls, "opts": dict(u.opts), "holder": "buffer" if qh == "none" else qh, "N": 1}
+        g = u.grid
+        if op.get("grid") is not None:  # another domain with the same number of samples: same parameter shape
+            g2 = dict(op["grid"], size=list(u.grid["size"]))
+            if u.spline:
+                g2["ac"] = True
+            if not (u.dense and f19_hits(g2, u.opts.get("stride", 1))):
+                g = g2
+        q = Unit(spec, g)
+        if u.kind in ("svf", "svffd"):
+            q.opts["scale"], q.opts["steps"] = op.get("scale"), int(op.get("steps", 0))
+        if u.kind == "lin" and u.cls != "HomogeneousTransform":
+            q.invert = bool(op.get("invert", False))
+        prep = op.get("prep", "none")
+        if qh == "callable":
+            own = u.content(op["fill"], 1)
+            q.net = Net(own, torch.zeros_like(own), torch.zeros_like(own))
+            q.net_model = Cell(own.clone())
+            q.pref = Cell(q.reset_tensor(own))
+            Q = q.build()
+        elif qh == "none":
+            Q = getattr(S, q.cls)(make_grid(g), params=None, **q.ctor_opts())
+            if q.kind == "lin" and q.invert:
+                Q.invert = True
+            prep = "none"
+        else:
+            own = u.content(op["fill"], 1)
+            q.slot = Slot(Cell(own.clone()))
+            Q = q.build(own)
+        if prep == "update":
+            Q.update()
+        elif prep == "call":
+            Q(self.x)
+        if prep != "none" and qh == "callable":
+            q.pref = Cell(own.clone())
+        inplace = bool(op.get("inplace"))
+        real = Q.link_(u.real) if inplace else Q.link(u.real)
+        if inplace and real is not Q:
+            raise Violation("link__not_in_place", "link_() did not return the transform it was called on")
+        if not inplace:
+            if real is Q:
+                raise Violation("link_not_a_copy", "link() returned the transform it was called on")
+            if qh in ("buffer", "parameter"):  # documented: link() makes a shallow copy, Q keeps its own parameters
+                y = Q(self.x)
+                e = q.twin(own)(self.x)
+                self.compared()
+                self.close(y, e, "link_copy_modifies_original", f"{q.cls}: Q(x) after Q.link(other) vs twin with Q's own parameters")
+        # model of the linked transform
+        q.real = real
+        q.link = u
+        q.slot = None
+        if qh != "callable":
+            q.pref = u.data_cell()  # link_: p = other.data()
+        if q.nonrigid:
+            q.buf = "none" if prep == "none" else "stale"
+        else:
+            q.buf = "stale" if qh == "callable" else "fresh"
+        q.holder = "buffer" if qh in ("none", "callable") else qh
+        q.net = q.net_model = None
+        sub = self.make_sub(who, [q], real, "link_" if inplace else "link", grid=g)
+        self.labels.add("link-other:q=" + qh + "/" + prep)
+        self.obs_fields(sub, who.lower() + "_")
 
-    def op_s_call(self, op):
-        s = self.need_secondary()
+    def op_unlink_copy(self, op):
+        """src.unlink() returns a shallow copy without parameters (src itself keeps its parameters / link); the copy
+        then gets its own data through data_() like a transform constructed with params=None."""
+        who = op.get("who", "S")
+        src = self.P if who == "S" else self.sub("S")
+        if src.composite:
+            raise Skip("composite")
+        u = src.units[0]
+        real = src.real.unlink()
+        if real is src.real:
+            raise Violation("unlink_not_a_copy", "unlink() returned the transform it was called on")
+        if real.params is not None:
+            raise Violation("unlink_keeps_params", f"params of unlink() copy is {type(real.params).__name__}")
+        t = u.derive()
+        new = u.content(op["fill"], u.batch())
+        real.data_(new.clone())
+        t.link = None
+        t.holder = "buffer"
+        t.net = t.net_model = t.pref = None
+        t.slot = Slot(Cell(new.clone()))
+        t.buf = "none" if t.nonrigid else "na"
+        sub = self.make_sub(who, [t], real, "unlink_copy")
+        tag = who.lower() + "_"
+        self.obs_fields(sub, tag)
+        self.obs_call(sub, self.x, tag)
+        src.last = tag + "unlink_copy"
+        self.obs_call(src, self.x, "" if who == "S" else "s_")
+
+    def op_restart_late(self, op):
+        """The primary is replaced by a new transform of the same class constructed WITHOUT parameters (params=None,
+        documented: "parameters must be set using data() or data_() before this transformation is evaluated"), to
+        which a transform is linked before the parameters are assigned; both are then used like any other pair."""
+        S = _sp()
+        old = self.need_unit()
+        spec = {"kind": old.kind, "cls": old.cls, "opts": dict(old.opts), "holder": op["holder"], "N": int(op.get("N", 1))}
+        u = Unit(spec, old.grid)
+        how = op.get("how", "none")
+        if how == "inverse" and (u.kind not in ("lin", "svf", "svffd") or u.cls == "HomogeneousTransform"):
+            how = "link"
+        u.real = getattr(S, u.cls)(make_grid(u.grid), params=None, **u.ctor_opts())
+        self.drop_secondary()
+        self.P = Subject([u], u.grid, False, u.real)
+        self.P.last = "restart_late"
+        m = None
+        if how == "inverse":
+            m = self.inverse_unit_late(u)
+            real = u.real.inverse(link=True, update_buffers=bool(op.get("ub")))
+            name = "inverse/link"
+        elif how == "link":
+            q = getattr(S, u.cls)(make_grid(u.grid), params=None, **u.ctor_opts())
+            real = q.link_(u.real) if op.get("inplace") else q.link(u.real)
+            m = u.derive()
+            m.link, m.slot = u, None
+            name = "link_" if op.get("inplace") else "link"
+        v = u.content(op["fill"], u.N)
+        u.real.data_(torch.nn.Parameter(v.clone()) if u.holder == "parameter" else v.clone())
+        u.slot = Slot(Cell(v.clone()))
+        u.buf = "none" if u.nonrigid else "na"
+        if m is not None:
+            m.pref = Cell(torch.zeros(u.data_shape()), valid=False)  # link_ to a transform without parameters
+            m.buf = "none" if m.nonrigid else "stale"
+            self.make_sub("S", [m], real, name)
+        self.labels.add("late=" + how)
+        self.changed("restart_late")
+        self.obs_fields(self.P, "")
+
+    def inverse_unit_late(self, u: Unit) -> Unit:
+        m = u.derive()
+        if u.kind == "lin":
+            m.invert = not u.invert
+        else:
+            m.sign = -u.sign
+        m.link, m.slot = u, None
+        return m
+
+    def op_p_unlink_data(self, op):
+        """P.unlink_() followed by P.data_(new): P holds the new tensor, transforms linked to P follow it."""
+        u = self.need_unit()
+        for d in (self.S, self.T):
+            if d is not None and any(v.link is None and v.slot is not None and v.slot is u.slot for v in d.units):
+                # in-place unlink_ of a transform whose parameter container is shared with shallow copies: what the
+                # copies hold afterwards is not documented
+                self.drop_secondary()
+                break
+        N = u.batch()
+        u.real.unlink_()
+        if u.real.params is not None:
+            raise Violation("unlink_keeps_params", f"params after unlink_() is {type(u.real.params).__name__}")
+        new = u.content(op["fill"], N)
+        # A Parameter is not assigned while an UNLINKED shallow copy may still share the parameter container with P from
+        # the time when P held a plain tensor / callable (what `params` of such a copy resolves to then is a
+        # torch.nn.Module lookup-order detail, not documented behaviour).  Linked transforms must keep following P.
+        derived = [v for d in (self.S, self.T) if d is not None for v in d.units]
+        as_param = bool(op.get("parameter")) and (u.holder == "parameter" or all(v.link is not None for v in derived))
+        u.real.data_(torch.nn.Parameter(new.clone()) if as_param else new.clone())
+        u.holder = "parameter" if as_param else "buffer"
+        u.net = u.net_model = u.pref = None
+        u.slot = Slot(Cell(new.clone()))
+        u.N = N
+        u.buf = "none" if u.nonrigid else "na"
+        self.replaced(u)
+        self.after_replacing("unlink_data")
+
+    def x_call(self, who, op):
+        s = self.sub(who)
         x = torch.tensor([op["x"]], dtype=torch.float32) if "x" in op else self.x
-        self.obs_call(s, x, "s_")
+        self.obs_call(s, x, who.lower() + "_")
 
-    def op_s_update(self, op):
-        s = self.need_secondary()
+    def x_update(self, who, op):
+        s = self.sub(who)
+        if not all(u.link is None or u.link.data_cell().valid for u in s.units):
+            raise Skip("placeholder")
         s.real.update()
         for u in s.units:
             self.refresh_unit(u)
-        self.obs_fields(s, "s_")
+        self.obs_fields(s, who.lower() + "_")
 
-    def op_s_fields(self, op):
-        self.obs_fields(self.need_secondary(), "s_")
-
-    def op_s_unlink_data(self, op):
-        s = self.need_secondary()
+    def x_unlink_data(self, who, op):
+        s = self.sub(who)
         if s.composite or s.units[0].link is None:
             raise Skip("not linked")
         u = s.units[0]
+        N = u.batch()
         s.real.unlink_()
         if s.real.params is not None:
             raise Violation("unlink_keeps_params", f"params after unlink_() is {type(s.real.params).__name__}")
-        new = u.content(op["fill"], u.N)
+        new = u.content(op["fill"], N)
         s.real.data_(new.clone())
         u.link = None
         u.holder = "buffer"
+        u.pref = None
         u.slot = Slot(Cell(new.clone()))
+        u.N = N
         u.buf = "none" if u.nonrigid else "na"
+        self.replaced(u)  # transforms linked to this one now follow its own parameters
         s.last = "unlink_data"
         self.changed("unlink_data")
-        self.obs_fields(s, "s_")
-        self.obs_call(s, self.x, "s_")
-        self.P.last = "s_unlink_data"
+        tag = who.lower() + "_"
+        self.obs_fields(s, tag)
+        self.obs_call(s, self.x, tag)
+        self.P.last = tag + "unlink_data"
         self.obs_call(self.P, self.x, "")
+        if who == "T" and self.S is not None:  # the transform T was derived from keeps its link
+            self.S.last = "t_unlink_data"
+            self.obs_call(self.S, self.x, "s_")
+
+    def need_secondary(self):
+        return self.sub("S")
+
+    def op_s_call(self, op):
+        self.x_call("S", op)
+
+    def op_s_update(self, op):
+        self.x_update("S", op)
+
+    def op_s_fields(self, op):
+        self.obs_fields(self.sub("S"), "s_")
+
+    def op_s_unlink_data(self, op):
+        self.x_unlink_data("S", op)
+
+    def op_t_call(self, op):
+        self.x_call("T", op)
+
+    def op_t_update(self, op):
+        self.x_update("T", op)
+
+    def op_t_fields(self, op):
+        self.obs_fields(self.sub("T"), "t_")
+
+    def op_t_unlink_data(self, op):
+        self.x_unlink_data("T", op)
 
     def op_s_drop(self, op):
-        self.S = None
+        self.drop_secondary()
 
     # ---- rules (generators of ops) ------------------------------------------------------
     @initialize(data=st.data())
@@ -1274,10 +1684,10 @@ class C09Machine(VMachine):
             st.fixed_dictionaries({"kind": st.just("add"), "key": st.integers(0, 999), "amp": gen.qfloat(0.02, 0.2, 0.01)})))
         self.emit({"op": "edit", "target": i, "how": how}, data)
 
-    @precondition(lambda self: self.has(lambda u: u.cls != "HomogeneousTransform"))
+    @precondition(lambda self: self.live())
     @rule(data=st.data())
     def r_reset(self, data):
-        self.emit({"op": "reset", "target": self.draw_target(data, lambda u: u.cls != "HomogeneousTransform")}, data)
+        self.emit({"op": "reset", "target": self.draw_target(data, lambda u: True)}, data)
 
     @precondition(lambda self: self.unit_only(lambda u: u.nonrigid))
     @rule(data=st.data())
@@ -1336,6 +1746,10 @@ class C09Machine(VMachine):
             sc = f * ext / diam
             g2["spacing"] = [float(f"{s * sc:.4g}") for s in inner["spacing"]]
             g2["center"] = list(g["center"])
+        if min(g2["spacing"]) < 0.02:
+            # repeated shrinking / refinement would leave the stated domain (sample positions are float32: a spacing far
+            # below eps32 * |centre| cannot be represented): start again from an unrelated grid
+            g2 = data.draw(c09_grids(self.D))
         return {"op": name, "grid": g2}
 
     @precondition(lambda self: self.live())
@@ -1384,17 +1798,29 @@ class C09Machine(VMachine):
     def r_fit_b(self, data):
         self.emit({"op": "fit", "fill": data.draw(fills(self.D))}, data)
 
-    @precondition(lambda self: self.unit_only())
+    # -- derived transforms
+    def linked_S(self):
+        return self.live() and self.S is not None and any(u.link is not None for u in self.S.units)
+
+    def keeps_link(self):
+        """In the linked family an existing linked S is not thrown away by the rules that derive another S."""
+        return self.FAMILY == "linked" and self.linked_S()
+
+    @staticmethod
+    def invertible(sub):
+        return sub is not None and all(u.kind in ("lin", "svf", "svffd") and u.cls != "HomogeneousTransform" for u in sub.units)
+
+    @precondition(lambda self: self.unit_only() and not self.keeps_link())
     @rule(data=st.data())
     def r_copy(self, data):
         self.emit({"op": "copy"}, data)
 
-    @precondition(lambda self: self.unit_only(lambda u: u.nonrigid and u.holder == "buffer" or (u.nonrigid and u.holder == "parameter" and not f9_open())))
+    @precondition(lambda self: self.unit_only(lambda u: u.nonrigid and u.holder in ("buffer", "parameter")) and not self.keeps_link())
     @rule(data=st.data())
     def r_grid_copy(self, data):
         self.do(self.draw_grid_op(data, "grid_copy"))
 
-    @precondition(lambda self: self.unit_only())
+    @precondition(lambda self: self.unit_only() and not self.keeps_link())
     @rule(data=st.data())
     def r_cond_copy(self, data):
         c = data.draw(conds())
@@ -1403,19 +1829,61 @@ class C09Machine(VMachine):
             op["via"] = "transformer"
         self.do(op)
 
-    @precondition(lambda self: self.live() and all(u.kind in ("lin", "svf", "svffd") and u.cls != "HomogeneousTransform" for u in self.P.units))
+    @precondition(lambda self: self.live() and self.invertible(self.P) and not self.keeps_link())
     @rule(link=st.booleans(), ub=st.booleans())
     def r_inverse(self, link, ub):
-        if link and f9_open() and any(u.holder == "parameter" for u in self.P.units):
-            link = False
         self.do({"op": "inverse", "link": link, "update_buffers": ub})
 
-    @precondition(lambda self: self.live() and self.S is None and self.FAMILY in ("linked", "composite") and all(
-        u.kind in ("lin", "svf", "svffd") and u.cls != "HomogeneousTransform" for u in self.P.units))
+    @precondition(lambda self: self.live() and self.S is None and self.FAMILY in ("linked", "composite") and self.invertible(self.P))
     @rule(ub=st.booleans())
     def r_inverse_b(self, ub):
-        link = not (f9_open() and any(u.holder == "parameter" for u in self.P.units))
-        self.do({"op": "inverse", "link": link, "update_buffers": ub})
+        self.do({"op": "inverse", "link": True, "update_buffers": ub})
+
+    def draw_link_other(self, data, who="S"):
+        src = self.P if who == "S" else self.S
+        u = src.units[0]
+        op = {"op": "link_other", "who": who, "inplace": data.draw(st.booleans()),
+              "qholder": data.draw(st.sampled_from(["buffer", "parameter", "callable", "none"])),
+              "prep": data.draw(st.sampled_from(["none", "update", "call"])),
+              "fill": data.draw(fills(self.D, u.nonrigid))}
+        if u.kind == "lin":
+            op["invert"] = data.draw(st.booleans())
+        if u.kind in ("svf", "svffd"):
+            op["scale"] = data.draw(st.sampled_from([None, 1.0, 0.5, -1.0]))
+            op["steps"] = data.draw(st.integers(0, 3))
+        if u.nonrigid and data.draw(st.sampled_from([False, False, True])):
+            op["grid"] = data.draw(c09_grids(self.D, ac=True if u.spline else None))
+        return op
+
+    @precondition(lambda self: self.unit_only() and not self.keeps_link())
+    @rule(data=st.data())
+    def r_link_other(self, data):
+        self.do(self.draw_link_other(data))
+
+    @precondition(lambda self: self.unit_only() and not self.keeps_link())
+    @rule(data=st.data())
+    def r_unlink_copy(self, data):
+        self.do({"op": "unlink_copy", "who": "S", "fill": data.draw(fills(self.D, self.P.units[0].nonrigid))})
+
+    @precondition(lambda self: self.unit_only())
+    @rule(data=st.data())
+    def r_p_unlink_data(self, data):
+        self.emit({"op": "p_unlink_data", "fill": data.draw(fills(self.D, self.P.units[0].nonrigid)),
+                   "parameter": data.draw(st.booleans())}, data)
+
+    @precondition(lambda self: self.unit_only(lambda u: u.holder != "callable") and self.FAMILY in ("linked", "dense", "spline"))
+    @rule(data=st.data())
+    def r_restart_late(self, data):
+        u = self.P.units[0]
+        self.emit({"op": "restart_late", "fill": data.draw(fills(self.D, u.nonrigid)), "N": data.draw(st.sampled_from([1, 1, 2])),
+                   "holder": data.draw(st.sampled_from(["buffer", "buffer", "parameter"])),
+                   "how": data.draw(st.sampled_from(["inverse", "link", "link", "none"])),
+                   "ub": data.draw(st.booleans()), "inplace": data.draw(st.booleans())}, data)
+
+    @precondition(lambda self: self.keeps_link())
+    @rule()
+    def r_s_drop(self):
+        self.do({"op": "s_drop"})
 
     @precondition(lambda self: self.live() and self.S is not None and self.FAMILY == "linked")
     @rule(data=st.data())
@@ -1437,11 +1905,155 @@ class C09Machine(VMachine):
     def r_s_fields(self):
         self.do({"op": "s_fields"})
 
-    @precondition(lambda self: self.live() and self.S is not None and not self.S.composite and self.S.units[0].link is not None)
+    @precondition(lambda self: self.linked_S() and not self.S.composite)
     @rule(data=st.data())
     def r_s_unlink(self, data):
         u = self.S.units[0]
         self.do({"op": "s_unlink_data", "fill": data.draw(fills(self.D, u.nonrigid))})
+
+    # -- transforms derived from a derived transform (chains of links, copies of linked transforms)
+    def draw_t_derive(self, data):
+        S = self.S
+        hows = ["copy"] if not S.composite else []
+        if self.invertible(S):
+            hows += ["inverse/link", "inverse/link", "inverse"]
+        if not S.composite:
+            hows += ["link_other", "unlink_copy"]
+        how = data.draw(st.sampled_from(hows))
+        if how == "copy":
+            return {"op": "copy", "who": "T"}
+        if how == "link_other":
+            return self.draw_link_other(data, "T")
+        if how == "unlink_copy":
+            return {"op": "unlink_copy", "who": "T", "fill": data.draw(fills(self.D, S.units[0].nonrigid))}
+        return {"op": "inverse", "who": "T", "link": how == "inverse/link", "update_buffers": data.draw(st.booleans())}
+
+    @precondition(lambda self: self.live() and self.S is not None and (not self.S.composite or self.invertible(self.S)))
+    @rule(data=st.data())
+    def r_t_derive(self, data):
+        self.do(self.draw_t_derive(data))
+
+    @precondition(lambda self: self.live() and self.T is not None)
+    @rule(data=st.data())
+    def r_t_call(self, data):
+        self.do({"op": "t_call", "x": data.draw(points(self.D))})
+
+    @precondition(lambda self: self.live() and self.T is not None)
+    @rule(which=st.sampled_from(["t_update", "t_fields"]))
+    def r_t_observe(self, which):
+        self.do({"op": which})
+
+    @precondition(lambda self: self.live() and self.T is not None and not self.T.composite and self.T.units[0].link is not None)
+    @rule(data=st.data())
+    def r_t_unlink(self, data):
+        self.do({"op": "t_unlink_data", "fill": data.draw(fills(self.D, self.T.units[0].nonrigid))})
+
+    # -- replacement of the parameters a linked transform refers to, then observation of the linked transform
+    def draw_replace(self, data):
+        """Ops that make a member of P hold other parameters: replacing the tensor (data_ with the same / another batch
+        size, public setter, fit), rewriting it in place (reset_parameters, optimiser-style edit), or - with callable
+        parameters - another prediction (re-conditioning / edited closure) fetched by update() or a call."""
+        idx = [i for i, u in enumerate(self.P.units) if u.link is None]
+        i = data.draw(st.sampled_from(idx))
+        u = self.P.units[i]
+        if u.holder == "callable":
+            how = data.draw(st.sampled_from(["condition_", "edit", "reset"] + ([] if self.P.composite else ["unlink_data"])))
+        else:
+            hows = ["data_", "data_", "data_N", "edit", "reset"]
+            if u.kind == "lin":
+                hows += ["set", "set"]
+            if u.kind == "ddf" and not self.P.composite:
+                hows.append("fit")
+            if not self.P.composite:
+                hows.append("unlink_data")
+            how = data.draw(st.sampled_from(hows))
+        if how in ("data_", "data_N"):
+            N = u.batch() if how == "data_" else 3 - u.batch() if u.batch() in (1, 2) else 1
+            ops = [{"op": "data_", "target": i, "fill": data.draw(fills(self.D, u.nonrigid)), "N": N}]
+        elif how == "set":
+            ops = [{"op": "set", "target": i, "fill": data.draw(fills(self.D, False)),
+                    "N": data.draw(st.sampled_from([u.batch(), 3 - u.batch() if u.batch() in (1, 2) else 1]))}]
+        elif how == "fit":
+            ops = [{"op": "fit", "fill": data.draw(fills(self.D))}]
+        elif how == "unlink_data":
+            ops = [{"op": "p_unlink_data", "fill": data.draw(fills(self.D, u.nonrigid)), "parameter": data.draw(st.booleans())}]
+        elif how == "reset":
+            ops = [{"op": "reset", "target": i}]
+        elif how == "condition_":
+            c = data.draw(conds())
+            ops = [{"op": "condition_", "args": c["args"], "kwargs": c["kwargs"]}]
+        else:
+            ops = [{"op": "edit", "target": i, "how": {"kind": "add", "key": data.draw(st.integers(0, 999)), "amp": 0.1}}]
+        for op in ops:
+            op["probe"] = False
+        if u.holder == "callable" or data.draw(st.sampled_from([False, False, True])):
+            ops.append(data.draw(st.sampled_from([{"op": "update"}, {"op": "call"}])))  # P fetches / buffers its new state
+        return ops
+
+    def ensure_linked_S(self, data):
+        if self.linked_S():
+            return
+        ways = []
+        if self.invertible(self.P):
+            ways += ["inverse", "inverse"]
+        if not self.P.composite:
+            ways += ["link_other"]
+        if data.draw(st.sampled_from(ways)) == "inverse":
+            self.do({"op": "inverse", "link": True, "update_buffers": data.draw(st.booleans())})
+        else:
+            self.do(self.draw_link_other(data))
+
+    def linkable(self):
+        return self.live() and (self.invertible(self.P) or not self.P.composite)
+
+    def scn_link_replace(self, data):
+        self.ensure_linked_S(data)
+        if not self.linked_S():
+            return
+        before = data.draw(st.sampled_from(["none", "s_call", "s_update"]))  # buffers of S computed before the replacement?
+        if before != "none":
+            self.do({"op": before})
+        for op in self.draw_replace(data):
+            self.do(op)
+        self.do({"op": data.draw(st.sampled_from(["s_call", "s_call", "s_update"]))})
+
+    @precondition(lambda self: self.linkable())
+    @rule(data=st.data())
+    def r_scn_link_replace(self, data):
+        self.scn_link_replace(data)
+
+    @precondition(lambda self: self.linkable() and self.FAMILY in ("linked", "composite"))
+    @rule(data=st.data())
+    def r_scn_link_replace_b(self, data):
+        self.scn_link_replace(data)
+
+    @precondition(lambda self: self.linkable() and self.FAMILY in ("linked", "composite", "callable"))
+    @rule(data=st.data())
+    def r_scn_chain(self, data):
+        """A transform derived from a linked transform (link to a link, copy / inverse / unlinked copy of it) while the
+        root replaces its parameters; the intermediate transform is updated (or not) before the derived one is used."""
+        self.ensure_linked_S(data)
+        if not self.linked_S() or (self.S.composite and not self.invertible(self.S)):
+            return
+        if self.T is None or data.draw(st.booleans()):
+            self.do(self.draw_t_derive(data))
+        if self.T is None:
+            return
+        for op in self.draw_replace(data):
+            self.do(op)
+        mid = data.draw(st.sampled_from(["none", "s_update", "s_call", "s_unlink_data"]))
+        if mid == "s_unlink_data":
+            if not self.S.composite and self.S.units[0].link is not None:
+                self.do({"op": mid, "fill": data.draw(fills(self.D, self.S.units[0].nonrigid))})
+        elif mid != "none":
+            self.do({"op": mid})
+        self.do({"op": data.draw(st.sampled_from(["t_call", "t_call", "t_update"]))})
+
+    @precondition(lambda self: self.has(lambda u: u.kind == "lin" and u.holder != "callable" and u.link is None))
+    @rule(data=st.data())
+    def r_set(self, data):
+        i = self.draw_target(data, lambda u: u.kind == "lin" and u.holder != "callable" and u.link is None)
+        self.emit({"op": "set", "target": i, "fill": data.draw(fills(self.D, False)), "N": data.draw(st.sampled_from([1, 1, 2]))}, data)
 
 
 def _family(name):
@@ -1475,6 +2087,253 @@ def replay_machine(cls, case):
     return m
 
 
+# =======================================================================================
+# GenericSpatialTransform: parameters predicted by one callable for all members, assigned by update() through
+# data_() of each member (a REPLACEMENT on every update), linked / unlinked inverse composites
+
+
+class GNet:
+    """Callable returning the parameter dictionary of a GenericSpatialTransform (closure over one tensor per member)."""
+
+    def __init__(self, bases: dict, weights: dict, keys: dict):
+        self.bases, self.weights, self.keys = bases, weights, keys
+        self.calls = 0
+
+    def __call__(self, *args, **kwargs):
+        self.calls += 1
+        a = sum(float(x) for x in args) + float(kwargs.get("k", 0.0))
+        return {self.keys[n]: self.bases[n] + a * self.weights[n] for n in self.bases}
+
+
+G_AFFINE = {"T": ("translation", "Translation", "offset"), "R": ("rotation", "EulerRotation", "angles"),
+            "S": ("scaling", "AnisotropicScaling", "scales")}
+G_NONRIGID = {"DDF": "ddf", "SVF": "svf", "FFD": "ffd", "SVFFD": "svffd"}
+
+
+class GenericModel:
+    """Model of a GenericSpatialTransform with callable parameters: what the callable closes over, the conditioning,
+    and the parameters the members hold = the prediction assigned by the last update() / call."""
+
+    def __init__(self, init: dict):
+        from deepali.spatial.generic import TransformConfig
+
+        S = _sp()
+        self.grid = init["grid"]
+        self.D = D = len(self.grid["size"])
+        cfg = init["config"]
+        comps = cfg["transform"].split(" o ")
+        nonrigid = [c for c in comps if c != "Affine"]
+        self.flip = bool(cfg.get("flip"))
+        # order of composition: documented function-composition notation, the right-most component is applied first;
+        # affine_model in matrix notation, i.e. the right-most letter is applied first
+        aff = [G_AFFINE[k] for k in reversed(cfg["affine_model"])] if "Affine" in comps else []
+        self.members = []  # (name, Unit)
+        for name, cls, _ in aff:
+            opts = {"order": cfg["rotation_model"]} if cls == "EulerRotation" else {}
+            self.members.append((name, Unit({"kind": "lin", "cls": cls, "opts": opts, "holder": "buffer"}, self.grid)))
+        if nonrigid:
+            kind = G_NONRIGID[nonrigid[0]]
+            cps = int(cfg.get("cps", 1))
+            opts = {"stride": [cps] * D, "transpose": False} if kind in ("ffd", "svffd") else {"stride": 1, "resize": True}
+            if kind in ("svf", "svffd"):
+                # the constructor passes config.scaling_and_squaring_steps on to an SVF only; SVFFD keeps the default
+                opts.update(scale=None, steps=int(cfg["steps"]) if kind == "svf" else None)
+            u = ("nonrigid", Unit({"kind": kind, "opts": opts, "holder": "buffer"}, self.grid))
+            self.members = self.members + [u] if comps[-1] == "Affine" else [u] + self.members
+        self.keys = {n: (n if not init.get("alt_keys") else {"translation": "offset", "rotation": "angles", "scaling": "scales",
+                                                             "nonrigid": "vfield"}[n]) for n, _ in self.members}
+        self.N = int(init.get("N", 1))
+        self.bases = {}
+        self.weights = {}
+        for i, (n, u) in enumerate(self.members):
+            self.bases[n] = Cell(self.content(u, init["fills"][i % len(init["fills"])], self.N))
+            w = init["weights"][i % len(init["weights"])]
+            shp = u.data_shape()
+            self.weights[n] = (torch.tensor([w[j % len(w)] for j in range(D)], dtype=torch.float32).reshape((1, D) + (1,) * D)
+                               if u.nonrigid else vec_tensor(w, 1, shp))
+        self.net = GNet({n: c.value.clone() for n, c in self.bases.items()}, self.weights, self.keys)
+        self.cond = ([], {})
+        self.held = None  # parameters assigned by the last update()
+        config = TransformConfig(transform=cfg["transform"], affine_model=cfg["affine_model"], rotation_model=cfg["rotation_model"],
+                                 control_point_spacing=int(cfg.get("cps", 1)), scaling_and_squaring_steps=int(cfg["steps"]),
+                                 flip_grid_coords=self.flip)
+        self.real = S.GenericSpatialTransform(make_grid(self.grid), params=self.net, config=config)
+        names = [n for n, _ in self.real.named_transforms()]
+        if names != [n for n, _ in self.members]:
+            raise Skip(f"member order {names} differs from the modelled order")  # input assumption, not part of C09
+
+    @staticmethod
+    def content(u: Unit, fill: dict, N: int) -> torch.Tensor:
+        if u.nonrigid:
+            return u.content(fill if fill["kind"] != "vec" else {"kind": "const", "v": (fill["v"] * 3)[:3]}, N)
+        return u.content(fill if fill["kind"] == "vec" else {"kind": "vec", "v": [0.11, -0.07, 0.05]}, N)
+
+    def predict(self, cond) -> dict:
+        """Parameters update() assigns for conditioning `cond` (documented flip of the coordinate order included)."""
+        a = sum(float(x) for x in cond[0]) + float(cond[1].get("k", 0.0))
+        out = {}
+        for n, u in self.members:
+            v = self.bases[n].value + a * self.weights[n]
+            if self.flip:
+                v = v.flip(1) if u.nonrigid else v.flip(-1)
+            out[n] = v.clone()
+        return out
+
+    def twin(self, values: dict, inverse: bool = False):
+        S = _sp()
+        ts = []
+        for n, u in (reversed(self.members) if inverse else self.members):
+            m = u.derive()
+            if inverse:
+                if u.kind == "lin":
+                    m.invert = True
+                else:
+                    m.sign = -1.0
+            ts.append(m.build(values[n], holder="buffer"))
+        return S.SequentialTransform(make_grid(self.grid), *ts)
+
+
+def run_generic(case: dict):
+    S = _sp()
+    init = case["init"]
+    g = GenericModel(init)
+    x0 = torch.tensor([init["x"]], dtype=torch.float32)
+    sec = None  # {"real", "link", "cond"}
+    ratio = [0.0]
+    labels = {"transform=" + init["config"]["transform"], "affine=" + init["config"]["affine_model"], f"flip={g.flip}", f"D={g.D}"}
+    changes = set()
+    nt = [False]
+    last = ["init"]
+
+    def close(a, e, kind, what):
+        a, e = a.detach(), e.detach()
+        if tuple(a.shape) != tuple(e.shape):
+            raise Violation(kind + ":shape", f"{what}: shape {tuple(a.shape)} != twin {tuple(e.shape)}")
+        sc = max(1.0, float(e.abs().max()) if e.numel() else 1.0)
+        ratio[0] = max(ratio[0], check_close(a, e, TWIN_K * EPS32 * sc, kind, what))
+        if len(changes) >= 2:
+            nt[0] = True
+
+    def cmp_fields(real, tw, kind, what):
+        for w in ("tensor", "disp"):
+            close(getattr(real, w)(), getattr(tw, w)(), f"{kind}{w}_mismatch:after={last[0]}", f"{what}.{w}() vs fresh twin")
+
+    def sec_expected():
+        # linked: "directly access the parameters from this transformation" = what the members of P hold now;
+        # not linked: its own update() evaluates the callable with its own conditioning
+        return g.held if sec["link"] else g.predict(sec["cond"])
+
+    for op in case["steps"]:
+        name = op["op"]
+        if name == "edit":
+            n, _ = g.members[int(op["target"]) % len(g.members)]
+            with torch.no_grad():
+                if op["how"]["kind"] == "scale" or n == "scaling":
+                    c = float(op["how"].get("c", 1.25))
+                    g.net.bases[n].mul_(c)
+                    g.bases[n].value.mul_(c)
+                else:
+                    d = torch.tensor(hash_noise(tuple(g.bases[n].value.shape), key=int(op["how"]["key"]), lo=-float(op["how"]["amp"]),
+                                                hi=float(op["how"]["amp"])), dtype=torch.float32)
+                    g.net.bases[n].add_(d)
+                    g.bases[n].value.add_(d)
+            changes.add("edit")
+            last[0] = "edit"
+        elif name == "renew":  # the callable closes over new tensors (other batch size possible)
+            g.N = int(op["N"])
+            for i, (n, u) in enumerate(g.members):
+                v = g.content(u, op["fills"][i % len(op["fills"])], g.N)
+                g.net.bases[n] = v.clone()
+                g.bases[n] = Cell(v.clone())
+            changes.add("renew")
+            last[0] = "renew"
+            labels.add("renew")
+        elif name == "condition_":
+            g.real.condition_(*[torch.tensor(float(a)) for a in op["args"]], **{k: torch.tensor(float(v)) for k, v in op["kwargs"].items()})
+            g.cond = (list(op["args"]), dict(op["kwargs"]))
+            changes.add("condition_")
+            last[0] = "condition_"
+        elif name == "update":
+            g.real.update()
+            g.held = g.predict(g.cond)
+            cmp_fields(g.real, g.twin(g.held), "g_", "generic")
+        elif name == "call":
+            x = torch.tensor([op["x"]], dtype=torch.float32) if "x" in op else x0
+            y = g.real(x)
+            g.held = g.predict(g.cond)
+            close(y, g.twin(g.held)(x), f"g_call_mismatch:after={last[0]}", "generic(x) vs fresh twin")
+        elif name == "inverse":
+            if any(u.kind in ("ddf", "ffd") for _, u in g.members):
+                continue
+            link = bool(op["link"])
+            if link and g.held is None:
+                continue  # members without parameters yet: nothing to link to that could be evaluated
+            real = g.real.inverse(link=link, update_buffers=bool(op["update_buffers"]))
+            if not isinstance(real, S.GenericSpatialTransform) or real is g.real:
+                raise Violation("g_inverse_not_a_copy", f"inverse() returned {type(real).__name__}")
+            sec = {"real": real, "link": link, "cond": (list(g.cond[0]), dict(g.cond[1]))}
+            changes.add("inverse/link" if link else "inverse")
+            labels.add("inverse/link" if link else "inverse")
+        elif name in ("s_call", "s_update"):
+            if sec is None:
+                continue
+            tag = "g_s_linked_" if sec["link"] else "g_s_"
+            if name == "s_call":
+                x = torch.tensor([op["x"]], dtype=torch.float32) if "x" in op else x0
+                y = sec["real"](x)
+                close(y, g.twin(sec_expected(), inverse=True)(x), f"{tag}call_mismatch:after={last[0]}",
+                      "inverse of generic transform (x) vs fresh twin")
+            else:
+                sec["real"].update()
+                cmp_fields(sec["real"], g.twin(sec_expected(), inverse=True), tag, "inverse of generic transform")
+            if sec["link"]:
+                labels.add("linked-inverse-compared")
+        else:
+            raise ValueError(name)
+    return {"ratio": ratio[0], "nontrivial": nt[0], "labels": sorted(labels)}
+
+
+@st.composite
+def generic_cases(draw):
+    D = draw(gen.dims())
+    nonrigid = draw(st.sampled_from([None, None, "SVF", "SVF", "SVFFD", "SVFFD", "DDF", "FFD"]))
+    affine = draw(st.permutations(["T", "R", "S"]).flatmap(lambda p: st.integers(1, 3).map(lambda k: "".join(p[:k]))))
+    if nonrigid is None:
+        transform = "Affine"
+    else:
+        transform = draw(st.sampled_from([nonrigid, "Affine o " + nonrigid, nonrigid + " o Affine"]))
+    flip = "R" not in affine and draw(st.sampled_from([False, False, True]))
+    q = gen.qfloat
+    vec = st.fixed_dictionaries({"kind": st.just("vec"), "v": st.lists(q(-AMP, AMP, 0.01), min_size=2, max_size=4)})
+    fl = st.one_of(vec, fills(D))
+    init = {"grid": draw(c09_grids(D, ac=True if nonrigid in ("FFD", "SVFFD") else None, max3=5, max2=7)),
+            "config": {"transform": transform, "affine_model": affine, "rotation_model": draw(st.sampled_from(["ZXZ", "XYZ", "ZYX"])),
+                       "steps": draw(st.integers(0, 3)), "cps": draw(st.sampled_from([1, 2])) if nonrigid in ("FFD", "SVFFD") else 1,
+                       "flip": flip},
+            "alt_keys": draw(st.booleans()), "N": draw(st.sampled_from([1, 1, 2])),
+            "fills": draw(st.lists(fl, min_size=2, max_size=4)),
+            "weights": draw(st.lists(st.lists(q(-0.2, 0.2, 0.01), min_size=2, max_size=3), min_size=1, max_size=3)),
+            "x": draw(points(D))}
+    change = st.one_of(
+        st.fixed_dictionaries({"op": st.just("edit"), "target": st.integers(0, 3), "how": st.one_of(
+            st.fixed_dictionaries({"kind": st.just("scale"), "c": st.sampled_from([0.5, 0.75, 1.25])}),
+            st.fixed_dictionaries({"kind": st.just("add"), "key": st.integers(0, 999), "amp": q(0.02, 0.2, 0.01)}))}),
+        st.fixed_dictionaries({"op": st.just("renew"), "N": st.sampled_from([1, 2]), "fills": st.lists(fl, min_size=2, max_size=4)}),
+        conds().map(lambda c: {"op": "condition_", "args": c["args"], "kwargs": c["kwargs"]}))
+    observe = st.one_of(st.just({"op": "update"}), st.fixed_dictionaries({"op": st.just("call"), "x": points(D)}), st.just({"op": "call"}))
+    inverse = st.fixed_dictionaries({"op": st.just("inverse"), "link": st.sampled_from([True, True, False]), "update_buffers": st.booleans()})
+    sobs = st.one_of(st.just({"op": "s_call"}), st.just({"op": "s_update"}), st.fixed_dictionaries({"op": st.just("s_call"), "x": points(D)}))
+    # blocks: (a) changes then an observation of the transform; (b) observation (members hold parameters), inverse,
+    # optional use of the inverse (its buffers exist), changes, observation (update() REPLACES the members' tensors), use
+    # of the inverse; (c) use of the inverse
+    block_a = st.tuples(st.lists(change, min_size=1, max_size=2), observe).map(lambda t: t[0] + [t[1]])
+    block_b = st.tuples(observe, inverse, st.lists(sobs, max_size=1), st.lists(change, min_size=1, max_size=2), st.lists(observe, max_size=1),
+                        sobs).map(lambda t: [t[0], t[1]] + t[2] + t[3] + t[4] + [t[5]])
+    block_c = sobs.map(lambda o: [o])
+    blocks = draw(st.lists(st.one_of(block_a, block_b, block_b, block_c), min_size=1, max_size=4))
+    return {"init": init, "steps": [o for b in blocks for o in b]}
+
+
 RULE = ("init: family member, grid (D, size, spacing, centre, rotation/permutation/reflection, align_corners), constructor "
         "options, holder (buffer/Parameter/callable), content (world-affine, hash-noise, constant); steps: rules drawn by "
         "Hypothesis with state-dependent arguments; non-trivial = >= 2 state-changing operations of different kinds "
@@ -1491,4 +2350,9 @@ FACETS = [
           quick_steps=20, thorough_steps=30, shards=8, quick_shards=1),
     Facet("composite", _runner("composite"), machine=make_machine(MACHINES["composite"]), rule=RULE, quick=60, thorough=600,
           quick_steps=20, thorough_steps=30, shards=8, quick_shards=1),
+    Facet("generic", run_generic, strategy=generic_cases, quick=160, thorough=3000, shards=8, quick_shards=1,
+          rule="GenericSpatialTransform (Affine = subset/order of T, R, S; optional DDF/SVF/FFD/SVFFD before or after it) whose "
+               "parameters are predicted by one callable; steps: in-place edits / replacement of the tensors the callable closes "
+               "over (other batch size), condition_, update, call, inverse(link) and call/update of the inverse; non-trivial = "
+               ">= 2 different state-changing operations precede a compared observation"),
 ]
